@@ -958,6 +958,26 @@ a/bc
 \n
 ''')
 
+E('w_trail_mixed', 'warn trail', r'''
+%%
+[a-c]+
+ab/[0-9]+
+[0-9]+
+abc
+x?y*/z
+xyz
+\n
+''')
+
+E('w_trail_mixed_nodefault', 'warn trail nodefault', r'''
+%option nodefault
+%%
+[a-c]+
+ab/[0-9]+
+[0-9]+
+abc
+''')
+
 E('w_eq', 'warn', r'''
 %%
 a(b|c)
